@@ -25,16 +25,18 @@ for tc in ET.parse('/tmp/mut/$P.junit.xml').iter('testcase'):
 print(len(want&ok), len(want))
 PY
 )
-# our checks on /repo with the patch applied
-git -C /repo apply $S/patch.diff || { echo "patch does not apply to /repo"; exit 2; }
+# our checks on a scratch worktree of the current /repo HEAD with the patch applied (VERIF_REPO), so that
+# concurrently running checks of /repo never see the change
+U=/tmp/mut/$P-cur; git -C /repo worktree remove --force $U >/dev/null 2>&1; git -C /repo worktree add -f $U HEAD >/dev/null 2>&1
+git -C $U apply $S/patch.diff || { echo "patch does not apply to current HEAD"; git -C /repo worktree remove --force $U; exit 2; }
 RES=""
 for c in $CHECKS; do
-  cd /verif && timeout -k 5 2400 ./check $c > $S/check_$c.log 2>&1; rc=$?
+  cd /verif && VERIF_REPO=$U timeout -k 5 3000 ./check $c > $S/check_$c.log 2>&1; rc=$?
   RES="$RES $c:rc=$rc:$(grep -c '^VIOLATION' $S/check_$c.log):$(grep -c 'no-failing-input-found' $S/check_$c.log)"
   cp /verif/evidence/replay/$c-1.json $S/replay_$c.json 2>/dev/null
 done
-git -C /repo checkout -- . 
-cd /verif && for c in $CHECKS; do timeout -k 5 2400 ./check $c > /dev/null 2>&1; done   # restore clean evidence
+git -C /repo worktree remove --force $U
+cd /verif && for c in $CHECKS; do timeout -k 5 3000 ./check $c > /dev/null 2>&1; done   # restore clean evidence
 echo "$P demo_changed_rc=$RC_CH demo_clean_rc=$RC_CL tests_pass=$TESTS checks:$RES"
 python3 - <<PY
 import json
